@@ -1,46 +1,131 @@
 """C01 read queries = openCypher rows: CypherRead.tla (reference semantics evaluated by TLC), MC_CypherRead.tla
 (graph x query enumeration), CypherRead_Trace.tla (Accept per logged case), harness bin cyread."""
+import concurrent.futures as cf
 from .qread_common import *
 
-# one entry per clause family: (family, graph bounds); every graph within the bounds (up to handle symmetry) is crossed
-# with every query of the family.  quick: <= 2 nodes (3 where the clause needs it) / <= 2 relationships.
+L_ONLYA = '{{"A"}}'
+# one entry per clause family: every graph within the bounds (nodes added in non-decreasing order = up to handle symmetry)
+# is crossed with every query of the family.  name = trace / script file name.
 QUICK = [
-    dict(fam="scanL", maxn=2, labels=ALL4, p="one"),
-    dict(fam="scanW1", maxn=2, labels=L_A, p="mixed"),
-    dict(fam="scanW2", maxn=2, labels=L_NONE, p="num", q="one"),
-    dict(fam="scanI", maxn=2, labels=L_A, p="mixed"),
-    dict(fam="hopD", maxn=2, maxr=2, labels=L_NONE, p="none", types=T2),
-    dict(fam="hopP", maxn=2, maxr=1, labels=L_A, p="one", r="one"),
+    dict(name="scanL", fam="scanL", maxn=2, labels=ALL4, p="none"),
+    dict(name="scanW1", fam="scanW1", maxn=2, labels=L_ONLYA, p="mixed"),
+    dict(name="scanW2", fam="scanW2", maxn=2, labels=L_NONE, p="num", q="one"),
+    dict(name="scanI", fam="scanI", maxn=2, labels=L_ONLYA, p="mixed"),
+    dict(name="hopD", fam="hopD", maxn=2, maxr=2, labels=L_NONE, p="none", types=T1),
+    dict(name="hopD2", fam="hopD", maxn=2, maxr=1, labels=L_NONE, p="none", types=T2),
+    dict(name="hopP", fam="hopP", maxn=2, maxr=1, labels=L_A, p="one", r="one"),
+    dict(name="agg", fam="agg", maxn=2, labels=L_NONE, p="num", q="one"),
+    dict(name="aggM", fam="agg", maxn=2, labels=L_NONE, p="mixed"),
+    dict(name="sum", fam="sum", maxn=2, labels=L_A, p="num", q="one"),
+    dict(name="aggHop", fam="aggHop", maxn=2, maxr=2, labels=L_NONE, p="none"),
+    dict(name="opt", fam="opt", maxn=2, maxr=1, labels=L_A, p="one"),
+    dict(name="ord", fam="ord", maxn=2, labels=L_NONE, p="mixed"),
+    dict(name="ord2", fam="ord2", maxn=2, maxr=1, labels=L_NONE, p="two", q="one"),
+    dict(name="with", fam="with", maxn=2, labels=L_A, p="num"),
+    dict(name="withHop", fam="withHop", maxn=2, maxr=1, labels=L_A, p="one"),
+    dict(name="unwind", fam="unwind", maxn=1, labels=L_A, p="num"),
+    dict(name="union", fam="union", maxn=2, labels=L_A, p="num"),
+    dict(name="var", fam="var", maxn=2, maxr=2, labels=L_NONE, p="none"),
+    dict(name="short", fam="short", maxn=2, maxr=2, labels=L_NONE, p="none"),
 ]
-THOROUGH = []
+# thorough: the value sets / multi-edges that the quick tier trims, and three-node graphs for the pattern families
+THOROUGH = [
+    dict(name="scanL", fam="scanL", maxn=2, labels=ALL4, p="one"),
+    dict(name="scanW1", fam="scanW1", maxn=2, labels=L_A, p="mixed"),
+    dict(name="scanW2", fam="scanW2", maxn=2, labels=L_NONE, p="mixed", q="one"),
+    dict(name="scanI", fam="scanI", maxn=2, labels=L_A, p="mixed"),
+    dict(name="hopD", fam="hopD", maxn=2, maxr=2, labels=L_NONE, p="none", types=T2),
+    dict(name="hopD3", fam="hopD", maxn=3, maxr=2, labels=L_NONE, p="none", types=T1),
+    dict(name="hopP", fam="hopP", maxn=2, maxr=2, labels=L_A, p="one", r="one"),
+    dict(name="agg", fam="agg", maxn=2, labels=L_NONE, p="mixed", q="one"),
+    dict(name="agg3", fam="agg", maxn=3, labels=L_NONE, p="num"),
+    dict(name="sum", fam="sum", maxn=2, labels=L_A, p="num", q="one"),
+    dict(name="aggHop", fam="aggHop", maxn=2, maxr=2, labels=L_NONE, p="none", r="one"),
+    dict(name="opt", fam="opt", maxn=2, maxr=2, labels=L_A, p="one", r="one"),
+    dict(name="ord", fam="ord", maxn=2, labels=L_A, p="mixed"),
+    dict(name="ord3", fam="ord", maxn=3, labels=L_NONE, p="num"),
+    dict(name="ord2", fam="ord2", maxn=2, maxr=1, labels=L_NONE, p="num", q="one"),
+    dict(name="with", fam="with", maxn=2, labels=L_A, p="mixed"),
+    dict(name="withHop", fam="withHop", maxn=2, maxr=2, labels=L_A, p="one"),
+    dict(name="unwind", fam="unwind", maxn=1, labels=L_A, p="mixed"),
+    dict(name="union", fam="union", maxn=2, labels=L_A, p="num", q="one"),
+    dict(name="var", fam="var", maxn=2, maxr=2, labels=L_A, p="none"),
+    dict(name="var3", fam="var", maxn=3, maxr=3, labels=L_NONE, p="none"),
+    dict(name="short", fam="short", maxn=3, maxr=3, labels=L_NONE, p="none"),
+]
+# random walks: bigger graphs (3 nodes, 3-4 relationships, all label sets) x composed queries / every family
+WALKS = [
+    dict(name="walkMix", fam="mix", maxn=3, maxr=3, labels=ALL4, p="num", r="one", types=T2, canon=False, maxh=9, askat=5, quick=400, thorough=12000),
+    dict(name="walkAll", fam="all", maxn=3, maxr=4, labels=ALL4, p="mixed", q="one", r="one", types=T2, canon=False, maxh=10, askat=4, quick=300, thorough=8000),
+]
+
+
+SELFTEST = ("scanW1", "hopD", "agg", "ord", "walkMix")   # binding self-test (one corrupted outcome must be rejected) on these
 
 
 def families(ctx, which):
     only = os.environ.get("VERIF_CYR_FAMS")
-    fams = QUICK if ctx.quick else QUICK + THOROUGH
-    return [f for f in fams if not only or f["fam"] in only.split(",")]
+    fams = QUICK if ctx.quick else THOROUGH
+    return [f for f in fams if not only or f["name"] in only.split(",")]
+
+
+def generate(ctx, which, per=3, extra=None):
+    """all GEN runs (three TLC processes at a time); returns [(name, batched scripts)]"""
+    jobs = []
+    for f in families(ctx, which):
+        kw = {k: v for k, v in f.items() if k != "name"}
+        jobs.append((f["name"], gen_cfg(inv="NoLaw", **kw), None))
+    only = os.environ.get("VERIF_CYR_FAMS")
+    for w in WALKS:
+        if only and w["name"] not in only.split(","):
+            continue
+        kw = {k: v for k, v in w.items() if k not in ("name", "quick", "thorough")}
+        jobs.append((w["name"], gen_cfg(sim=True, view="", emit="", inv="SimEmit", **kw), (w["quick"] if ctx.quick else w["thorough"], w["maxh"] + 2)))
+
+    def one(job):
+        name, cfg, sim = job
+        return name, ctx.tlc_gen("MC_CypherRead", cfg, "gen-" + name, workers=2, timeout=3000, simulate=sim)
+
+    with cf.ThreadPoolExecutor(max_workers=3) as ex:
+        res = list(ex.map(one, jobs))
+    return [(name, batch(scripts, per=per, extra=extra)) for name, scripts in res]
+
+
+def design_checks(ctx):
+    # self-test: with the multi-label deviation the all-labels law of the statement fails on the design
+    ctx.tlc_gen("MC_CypherRead", gen_cfg("scanL", maxn=1, labels=ALL4, p="none", dev='{"KF_C01_MultiLabelUnion"}', emit=""),
+                "kf-witness", expect_violation=True, workers=2)
+    # laws of the reference semantics itself (well-formed tables, all-labels law, count(*) law) over every family
+    ctx.tlc_gen("MC_CypherRead", gen_cfg("all", maxn=2, maxr=1, labels=ALL4, p="one", types=T1, emit="", askat=3 if ctx.quick else 1),
+                "laws", workers=6, timeout=3000)
+
+
+ASSUME = (
+    "graphs: every graph with <= 2 nodes / <= 2 relationships (3 / 3 in the thorough tier and in the random walks) over labels {A,B}, "
+    "types {T,U}, node keys p,q and relationship key p with values {absent, 1, 2, 2.0, 'a', true}; floats are half-integers; "
+    "strings come from a 5-element table",
+    "results are compared as bags (exact sequence constraints only from ORDER BY keys); lists are compared as bags of elements "
+    "(collect order is undefined); in queries with DISTINCT / grouping / UNION numerically equal values (2 and 2.0) are identified in "
+    "the comparison because the representative of a class is undefined",
+    "not generated (outside the checked fragment): type errors inside AND/OR operands, sum() over non-numbers, shortestPath with "
+    "identical end points, named variable-length relationship variables, path variables, ORDER BY on expressions that are not "
+    "returned, arithmetic, string / list functions",
+)
 
 
 def run(ctx):
-    # design-level self-test: with the multi-label deviation the all-labels law of the statement fails
-    ctx.tlc_gen("MC_CypherRead", gen_cfg("scanL", maxn=2, labels=ALL4, p="none", dev='{"KF_C01_MultiLabelUnion"}', emit=""),
-                "kf-witness", expect_violation=True, workers=4)
-    total = []
-    for f in families(ctx, "c01"):
-        scripts = ctx.tlc_gen("MC_CypherRead", gen_cfg(**f), "gen-" + f["fam"], workers=6, timeout=3000)
-        total.append((f["fam"], batch(scripts)))
-    ctx.assume("graphs: <= 2 nodes / <= 2 relationships exhaustively (quick), labels {A,B}, types {T,U}, property keys p,q over "
-               "{absent, 1, 2, 2.0, 'a', true}; floats are half-integers; strings from a 5-element table",
-               "results are compared as bags; lists (collect) as bags of elements; in queries with DISTINCT / grouping / UNION "
-               "numerically equal values (2 and 2.0) are identified because the representative of a class is not defined")
+    design_checks(ctx)
+    total = generate(ctx, "c01")
+    ctx.assume(*ASSUME)
     stats = {}
-    for fam, scripts in total:
-        sp = ctx.write_scripts(fam, scripts)
-        tr = ctx.run_harness("cyread", sp, name=fam, args=["mode=c01"])
+    for name, scripts in total:
+        sp = ctx.write_scripts(name, scripts)
+        tr = ctx.run_harness("cyread", sp, name=name, args=["mode=c01"])
         n, ok, err = count_cases(tr)
         shape_stats(tr, stats)
-        ctx.log("%s: %d cases, %d answered, %d refused" % (fam, n, ok, err))
-        ctx.validate("CypherRead_Trace", trace_cfg(ctx), tr, name=fam, corrupt=corrupt_outcome("out"))
+        ctx.log("%s: %d cases, %d answered, %d refused" % (name, n, ok, err))
+        ctx.validate("CypherRead_Trace", trace_cfg(ctx), tr, name=name, corrupt=corrupt_outcome("out"), jobs=int(os.environ.get("VERIF_JOBS", "6")),
+                     selftest=name in SELFTEST)
     ctx.cov["query_shapes"] = len(stats)
     ctx.cov["query_shapes_refused"] = sorted(k for k, v in stats.items() if v[1] > 0)[:40]
     record_shapes(ctx, stats)
